@@ -508,7 +508,11 @@ func runCompr() {
 	for i := range cases {
 		units[i] = cases[i].render(i)
 	}
-	b := newBatcher(batchConfig{Name: "compr", Prelude: comprPrelude + comprPreludeCmd, PerProgram: 300, Workers: 8})
+	per := 300
+	if len(cases) > 6000 {
+		per = 700
+	}
+	b := newBatcher(batchConfig{Name: "compr", Prelude: comprPrelude + comprPreludeCmd, PerProgram: per, Workers: 8})
 	defer b.close()
 	xres, gres := b.run(units)
 	compared, agree := 0, 0
@@ -551,7 +555,9 @@ func runCompr() {
 			default:
 				res.Detail = lines[0] + " | " + lines[1]
 			}
-		case "compile-error", "compile-panic", "go-build-error", "timeout", "crash":
+		case "timeout":
+			fatal("compr: case %d (%s) timed out", i, c.text())
+		case "compile-error", "compile-panic", "go-build-error", "crash":
 			viol(x.Kind, c.text()+": "+clip(x.Detail, 400))
 		default:
 			fatal("compr: case %d (%s) has no result: %s %s", i, c.text(), x.Kind, x.Detail)
